@@ -41,6 +41,7 @@ def gen(t):
     a('w_rotmat', '%s& o, const %s& f, const %s& tt' % (M4, V, V), 'o = rotationMatrix(f, tt);')
     a('w_axang', '%s& o, const %s& q' % (Q, Q), '%s p; p.setAxisAngle(q.axis(), q.angle()); o = p;' % Q)
     a('w_angle', '%s& o, const %s& q' % (E, Q), 'o = q.angle();')
+    a('w_explog', '%s& o, const %s& q' % (Q, Q), 'o = q.log().exp();')
     a('w_slerp', '%s& o, const %s& p, const %s& q, const %s& tt' % (Q, Q, Q, E), 'o = slerp(p, q, tt);')
     return tu
 
@@ -284,6 +285,68 @@ def main(rep, ws, tier):
             return (None, 'setAxisAngle(axis(), angle()) reproduces every unit q (cos, sin of atan2(|v|, r) expanded; |q| = 1)', fn_where(S.fn))
         ob('axis/angle round trip', 'R10.aa', axang)
 
+        def explog():
+            """exp(log q) == q for unit q on the generic cell (|r| < 1, no underflow guard taken): the inverse trigonometric
+            function of log is composed with the sine / cosine of log and exp:  cos(acos a) = a, sin(acos a) = sqrt(1-a^2),
+            sin(asin a) = a, cos(asin a) = sqrt(1-a^2); acos >= 0, asin of a length >= 0."""
+            S = S_('w_explog')
+            o = outs(S, 'a0', 4)
+            qs = [agg.slot_in('a1', i, t) for i in range(4)]
+            c0 = P.Ctx()
+            def below_one(X):
+                """X^2 is a sum of distinct squared components of q, so |X| <= |q| = 1"""
+                try: r = c0.rat(X)
+                except P.NotPoly: return False
+                sq = c0.rmul(r, r)
+                if sq[1] != ONE: return False
+                ks = set(c0.key(z) for z in qs)
+                return bool(sq[0]) and all(c_ == 1 and len(m) == 1 and m[0][1] == 2 and m[0][0] in ks for m, c_ in sq[0].items())
+            def huge(z): return z.op == 'fmul' and any(w.op == 'const' and abs(T.const_value(w)) > 10 ** 30 for w in z.args)
+            for _ in range(12):
+                pre = {}
+                for c in set(c_ for x in o for c_ in P.all_conds(x)):
+                    if tiny(c): pre[c] = False
+                    elif c.op == 'fcmp' and c.attr == 'oeq' and any(z.op == 'const' and T.const_value(z) == 0 for z in c.args): pre[c] = False
+                    elif c.op == 'fcmp' and c.attr in ('olt', 'ole'):
+                        a_, b_ = c.args
+                        if a_.op == 'const' and T.const_value(a_) == 1 and below_one(b_): pre[c] = False          # 1 < X
+                        elif b_.op == 'const' and T.const_value(b_) == 1 and below_one(a_): pre[c] = True         # X < 1 (generic)
+                        elif a_.op == 'const' and T.const_value(a_) == -1 and below_one(b_): pre[c] = True        # -1 < X (generic)
+                        elif b_.op == 'const' and T.const_value(b_) == -1 and below_one(a_): pre[c] = False       # X < -1
+                        elif huge(a_): pre[c] = False                                                            # max*|s| <= |theta|: the underflow guard
+                        elif huge(b_): pre[c] = True
+                if not pre: break
+                o = [T.resolve(x, pre) for x in o]
+            left = set(c_ for x in o for c_ in P.all_conds(x))
+            ctx = P.Ctx(); ctx.cancel = True; unit(ctx, 'a1')
+            inv = {}          # atom key of acos(a) / asin(a) -> (name, a as Rat)
+            orig = ctx.call
+            def sqrt_rat(r): return ctx.rdiv(ctx.sqrt_poly(r[0]), ctx.sqrt_poly(r[1]))
+            def call(n):
+                if n.attr in ('acos', 'asin') and len(n.args) == 1:
+                    r = orig(n)
+                    (m, c_), = r[0].items(); k = m[0][0]
+                    inv[k] = (n.attr, ctx.rat(n.args[0]))
+                    if n.attr == 'acos' or (n.args[0].op == 'call' and n.args[0].attr == 'sqrt'): ctx.positive.add(k)
+                    return r
+                if n.attr in ('cos', 'sin') and len(n.args) == 1:
+                    a = ctx.rat(n.args[0])
+                    if a[1] == ONE and len(a[0]) == 1:
+                        (m, c_), = a[0].items()
+                        if c_ == 1 and len(m) == 1 and m[0][1] == 1 and m[0][0] in inv:
+                            fn_, x = inv[m[0][0]]
+                            if (fn_, n.attr) in (('acos', 'cos'), ('asin', 'sin')): return x
+                            return sqrt_rat(ctx.radd((P.pconst(1), ONE), neg(ctx.rmul(x, x))))
+                return orig(n)
+            ctx.call = call
+            q = [atom(ctx, z) for z in qs]
+            for i in range(4):
+                r = ctx.rat(o[i])
+                if not ctx.requal(r, q[i]):
+                    return ('component %d of exp(log q) is %s, not that of q (unit q, |r| < 1)' % (i, P.show_rat(r, ctx)[:200]), None, fn_where(S.fn))
+            return (None, 'exp(log q) reproduces every unit q with |r| < 1 (inverse trigonometric function composed with sin / cos; |q| = 1)', fn_where(S.fn))
+        ob('exp(log q)', 'R10.explog', explog)
+
         def pivot():
             """negative-trace branch: the component computed as sqrt(...)/2 (the pivot, later the divisor 0.5/s of the
             other three) belongs to a LARGEST diagonal entry, on every weak ordering of the diagonal consistent with the path"""
@@ -435,7 +498,7 @@ def main(rep, ws, tier):
         ob('slerpShortestArc', 'R10.slerp', shortest)
     rep.floor('quaternion obligations', len(rep.obs), 9 * len(types))
     rep.assumptions += ['exact real arithmetic at a generic point', '|q| = 1 where the statement says "unit"', 'sinx_over_x, sqrt, sin, cos as atoms with sqrt(x)^2 = x, sin^2+cos^2 = 1']
-    rep.undecided_clauses += ['angle-linearity of slerp, exp(log q) = q, setAxisAngle(axis(),angle()) (inverse trigonometric functions)', 'squad / spline interpolation and tangent continuity', 'nearly opposite directions (numeric)']
+    rep.undecided_clauses += ['angle-linearity of slerp (inverse trigonometric functions); exp(log q) = q for r near -1 or +1 (numeric)', 'squad / spline interpolation and tangent continuity', 'nearly opposite directions (numeric)']
 
 def find_node(root, target):
     seen = set(); stack = [root]
